@@ -8,6 +8,7 @@ every token boundary or by replacing one token with each poison token (kept iff 
   print every variable, retype every variable, forall/concat every table, run every Q) behaves identically in the
   disturbed context and in an undisturbed twin. Routes: Parser::parse, the C API, the interactive parser.
 """
+import itertools
 import time
 
 from ..core import Case, Violation, explore, finish, generic_safety, op_ctx, op_run, op_dump, op_out, unhex, Result
@@ -71,6 +72,8 @@ DIRECT_R = ["import nosuchmodule;", 'include "/nonexistent/file.bloc";', "a = no
             'a = "s"; import str(1 / (e - e));', 'd = "t"; include str(tab(1, 1).at(5));']
 
 PROBES = ('print a s d $k isnull(n) typeof(ty) r@1 r@2 t.count() tt.count() b.count();\n'
+          # programs whose acceptance depends on the declared type of each variable
+          'print a + 1 d * 2 s + "x" t.at(0) + 1 r@1 + 1 e + 1 i + 1 tt.at(0).at(0) + 1 b.at(0) + 1 ty + 1 tq.at(0)@1 + 1 rq@1 + 1 (n + 1);\n'
           'forall pe in t loop put pe " "; end loop; print "";\n'
           't.concat(42); tt.at(0).put(0, 7); r.set@1(11); s.concat("?"); b.concat(1); print t.at(t.count() - 1) tt.at(0).at(0) r@1 s b.count();\n'
           'a = "retyped"; d = "retyped"; n = 5; e = "s"; i = "s"; print a d n e i;\n'
@@ -153,6 +156,18 @@ def gen_factory(tier):
                 for (n2, d2) in decls[:4]:
                     for (n3, d3) in decls[:6]:
                         items.append(("multi3:%s+%s+%s" % (n1, n2, n3), d1 + "\n" + d2 + "\n" + d3 + "\n" + tails[1]))
+            # rejected texts that give one variable another type more than once before the error (every step is backed up)
+            if hasv:
+                RT = ['"s"', "2.5", "tab(1, 1)", 'tup("a", 2)', "true", "null", 'raw("x")', "7"]
+                for var in ("a", "d", "s", "t", "r", "n", "b", "tt", "tq", "rq", "ty"):
+                    for v1 in RT:
+                        for v2 in RT:
+                            items.append(("retype:%s:%s,%s" % (var, v1, v2), "%s = %s; %s = %s; a = 1 +;" % (var, v1, var, v2)))
+                for var in ("a", "t", "r"):
+                    for v1, v2, v3 in itertools.product(RT[:5], repeat=3):
+                        items.append(("retype3:%s:%s,%s,%s" % (var, v1, v2, v3), "%s = %s; e = %s; %s = %s; %s = %s; zz9 = nosuch;" % (var, v1, v1, var, v2, var, v3)))
+                for d1, d2 in itertools.product(("string", "decimal", "table", "tuple", "boolean", "integer"), repeat=2):
+                    items.append(("retype:decl:%s,%s" % (d1, d2), "a:%s; a:%s; d:%s; d:%s; a = 1 +;" % (d1, d2, d2, d1)))
             if tier == "thorough":
                 # chains of two rejected texts
                 base = [it for it in items if it[0].startswith("q9:") or it[0].startswith("q10:") or it[0].startswith("direct")]
@@ -161,6 +176,8 @@ def gen_factory(tier):
                         items.append(("chain:%s+%s" % (t1, t2), (r1, r2)))
             for tag, r in items:
                 routes = ("cpp", "capipos", "istmt") if tier == "thorough" else (("cpp", "capipos", "istmt")[n % 3],)
+                if tag.startswith("retype") and tier != "thorough":
+                    routes = (("cpp", "capipos")[n % 2],)
                 for route in routes:
                     rs = r if isinstance(r, tuple) else (r,)
                     if route == "istmt" and any(x.count(";") > 1 and not x.startswith("function") and "loop" not in x and "begin" not in x and "if" not in x for x in rs):
